@@ -67,6 +67,25 @@ func (r *plainReader) Read(p []byte) (int, error) {
 	return n, nil
 }
 
+// dataEOFReader hands over its last bytes together with io.EOF in the same Read call (as tar
+// entries, HTTP bodies and iotest.DataErrReader do), in chunks of at most 2560 bytes.
+type dataEOFReader struct {
+	data []byte
+	pos  int
+}
+
+func (r *dataEOFReader) Read(p []byte) (int, error) {
+	if len(p) > 2560 {
+		p = p[:2560]
+	}
+	n := copy(p, r.data[r.pos:])
+	r.pos += n
+	if r.pos >= len(r.data) {
+		return n, io.EOF
+	}
+	return n, nil
+}
+
 func (m MD) marshaler() interface{ MarshalBinary() ([]byte, error) } {
 	switch m.Kind {
 	case "raw":
@@ -120,6 +139,8 @@ func (d DI) buildWith(src io.Reader) (sif.DescriptorInput, error) {
 	data := d.Data.Bytes()
 	if src != nil {
 		r = src
+	} else if d.Seekable == "dataeof" && d.Fail < 0 {
+		r = &dataEOFReader{data: data}
 	} else if d.Seekable != "" && d.Fail < 0 {
 		whole := append(bytes.Repeat([]byte("FRAMING!"), d.Pre/8+1)[:d.Pre], data...)
 		if d.Seekable == "file" {
@@ -320,8 +341,36 @@ func (e *Env) applyCore(op *Op) []string {
 		return e.applySt(op.St)
 	case "forge":
 		return e.applyForge(op)
+	case "transplant":
+		return e.applyTransplant(op)
 	case "ftrunc":
 		// the file is cut short behind the library's back; later commands see what is left
+		if op.Lib {
+			// library history: the store is cut short, then loaded read-write on the same backend
+			if e.f == nil {
+				return []string{"noimg"}
+			}
+			b := e.storeBytes()
+			if op.N < int64(len(b)) {
+				b = b[:op.N]
+			}
+			e.Close()
+			if e.backend == "file" {
+				if err := os.WriteFile(e.path, b, 0o644); err != nil {
+					return []string{"ftrunc err"}
+				}
+			} else {
+				e.buf = sif.NewBuffer(append([]byte(nil), b...))
+			}
+			rw, err := e.rw()
+			if err != nil {
+				return []string{"ftrunc err"}
+			}
+			if f, err := sif.LoadContainer(rw); err == nil {
+				e.f = f
+			}
+			return []string{"ftrunc ok"}
+		}
 		if e.path == "" {
 			return []string{"noimg"}
 		}
@@ -553,7 +602,11 @@ func (e *Env) applyCore(op *Op) []string {
 		e.Close()
 		e.backend = "buf"
 		e.buf = sif.NewBuffer(b)
-		f, err := sif.LoadContainer(e.buf)
+		rw, rerr := e.rw() // keeps the C09 recorder in place
+		if rerr != nil {
+			return []string{"res err:other"}
+		}
+		f, err := sif.LoadContainer(rw)
 		if err != nil {
 			e.f = nil
 			return []string{"res " + errClass(err)}
@@ -816,5 +869,41 @@ func (e *Env) applyForge(op *Op) []string {
 		obs = append(obs, e.applyCore(so)...)
 		op.Raw = append(op.Raw, so.Lines()...)
 	}
+	return obs
+}
+
+// applyTransplant adds a second signature object to group op.S.Groups[0]: the armored OpenPGP
+// signature packet of the group's first clear-signed signature, attached to a plaintext that
+// differs from the signed one (a space after the opening brace: the same JSON document, other
+// bytes).  No key validates it.
+func (e *Env) applyTransplant(op *Op) []string {
+	skip := func() []string {
+		op.Raw = []string{"nop"}
+		return []string{"nop"}
+	}
+	if e.f == nil || len(op.S.Groups) == 0 {
+		return skip()
+	}
+	gid := op.S.Groups[0]
+	var blob []byte
+	e.f.WithDescriptors(func(d sif.Descriptor) bool {
+		if l, isG := d.LinkedID(); d.DataType() == sif.DataSignature && isG && l == gid && blob == nil {
+			if b, err := d.GetData(); err == nil && bytes.HasPrefix(b, []byte("-----BEGIN PGP SIGNED MESSAGE-----")) {
+				blob = b
+			}
+		}
+		return false
+	})
+	if blob == nil {
+		return skip()
+	}
+	i := bytes.Index(blob, []byte("{"))
+	if i < 0 {
+		return skip()
+	}
+	crafted := append(append(append([]byte(nil), blob[:i+1]...), ' '), blob[i+1:]...)
+	so := &Op{Kind: "add", T: TOpt{Kind: "det"}, DI: sigObjectDI(crafted, gid, 0, 1, op.FP, 0)}
+	obs := e.applyCore(so)
+	op.Raw = so.Lines()
 	return obs
 }
